@@ -196,7 +196,7 @@ func replay(c *lib.Ctx, raw json.RawMessage) {
 	case "roaring-seq":
 		roaringSeq(c, k.Seq)
 	case "roaring-bulk":
-		roaringBulk(c, k.N, k.Order, k.Aux)
+		roaringEnv(func() { roaringBulk(c, k.N, k.Order, k.Aux) })
 	default:
 		lib.Infra("unknown case kind %q", k.Kind)
 	}
@@ -206,8 +206,8 @@ func main() {
 	lib.Main(lib.Spec{
 		ID:    "C39",
 		Level: "exploration",
-		Rule: "per utility: all operation sequences up to a length over a small colliding alphabet (ranges: <=5 inserts of the 21 ranges over 6 endpoints; ordset: <=6 inserts over 6 keys; sortlist iterator: <=4 ops over 9 ops; shmap: <=3(4) ops over 13 ops from 44 prefilled states x 4 hash functions; lrucache: <=4(5) ops over 16 ops from prefilled states; cache: <=4 ops over 11 keys; roaring: <=5 adds over 7 values; bloom: all subsets of 10 boundary hashes) " +
-			"and bulk families crossing the real constants (127..16385 keys/ranges in 6 insertion orders; sort lists of 0..32769 elements in 7 patterns; roaring containers of 4095..4097 values); every result is compared with a model; evaluations = operations judged; all cases distinct by construction",
+		Rule: "per utility: all operation sequences up to a length (quick / thorough) over a small colliding alphabet (ranges: <=4/5 inserts of the 21 ranges over 6 end points; ordset: <=5/6 inserts over 6 keys; sortlist iterator: <=4/5 ops over 9 ops on 9 list sizes; shmap: <=3/4 ops over 13 ops from 44 prefilled states x 4 hash functions; lrucache: <=4/5 (capacity 13: 3/4) ops over Get/Put of capacity+2 keys from 5 prefilled states; cache: <=4/5 Gets over 11 keys from 6 prefilled states; roaring: <=4/5 adds over 7 values; bloom: all subsets of 10 boundary hashes x 45 filters) " +
+			"and bulk families crossing the real constants (1..16385 keys/ranges in 6 insertion orders x 4+2 families; sort lists of 0..16385/65537 elements in 7 patterns x 2 builders; roaring containers of 1..65536 values in 6 orders x 3 strides); every result is compared with a model; evaluations = operations judged; all cases distinct by construction",
 		Assumptions: []string{
 			"models: sorted slice of disjoint closed intervals (merge on overlap), sorted key slice, Go map, recency list; string order = byte order",
 			"capacity: ranges/ordset may refuse (Full/false) only once they hold >= 4096 entries (128 leaves of >= 32) and must refuse beyond 128*128; what was refused is not in the model",
